@@ -104,16 +104,15 @@ contract(C + "_check_parsing", requires=[], ensures=[],
 
 contract(C + "_find_decay_modes", types={"mother": "str"}, requires=PARSED,
          ensures=[
-             # the lines, in order, of the FIRST table whose mother is `mother`
-             f"forall(lambda k: implies(0 <= k < llen({DECAYS}) and mother_of(lget({DECAYS}, k)) == mother and "
-             f"       forall(lambda l: implies(0 <= l < k, mother_of(lget({DECAYS}, l)) != mother)), "
-             f"       len(result) == len(lines_of(lget({DECAYS}, k))) and "
-             f"       forall(lambda j: implies(0 <= j < len(result), same(result[j], lines_of(lget({DECAYS}, k))[j])))))",
+             "has_table(self, mother)",
              "isfresh(result)",
              "forall(lambda j: implies(0 <= j < len(result), wf_resolved(result[j], 'decayline')))",
          ],
+         # the lines, in order, of the FIRST table whose mother is `mother`: callers get this sequence itself
+         opts={"result_view": f"lines_of(lget({DECAYS}, first_table(self, mother)))", "entry_defined": True},
+         defs=["has_table_def(self)"],
          raises={"DecFileNotParsed": "self._parsed_dec_file is None",
-                 "DecayNotFound": f"self._parsed_dec_file is not None and forall(lambda l: implies(0 <= l < llen({DECAYS}), mother_of(lget({DECAYS}, l)) != mother))"},
+                 "DecayNotFound": "self._parsed_dec_file is not None and not has_table(self, mother)"},
          loops={"loop#0": {"invariant": [f"forall(lambda l: implies(0 <= l < _i, mother_of(lget({DECAYS}, l)) != mother))"]}},
          returns="tuple", properties=["C01", "C09", "C16"])
 
@@ -130,6 +129,8 @@ contract(C + "_decay_mode_details", types={"decay_mode": "obj:Tree", "display_ph
              "dget(result, 'model') == (('PHOTOS ' + model_node(decay_mode).children[0].value) if (display_photos_keyword and has_photos(decay_mode)) else model_node(decay_mode).children[0].value)",
              "implies(not has_options(decay_mode), dget(result, 'model_params') == '')",
              "implies(has_options(decay_mode), typ(dget(result, 'model_params'), 'list') and isfresh(dget(result, 'model_params')) and llen(dget(result, 'model_params')) == len(options(decay_mode)))",
+             # the two lists are objects of their own
+             "not same(dget(result, 'model_params'), dget(result, 'fs'))",
              "implies(has_options(decay_mode), forall(lambda j: implies(0 <= j < len(options(decay_mode)), same(lget(dget(result, 'model_params'), j), option_value(options(decay_mode)[j])))))",
          ],
          returns="dict", properties=["C01", "C09", "C16"])
@@ -144,8 +145,44 @@ contract(C + "list_decay_modes", types={"mother": "str", "pdg_name": "bool"}, re
          ],
          raises={"DecFileNotParsed": "self._parsed_dec_file is None",
                  "DecayNotFound": f"self._parsed_dec_file is not None and forall(lambda l: implies(0 <= l < llen({DECAYS}), mother_of(lget({DECAYS}, l)) != mother))"},
+         defs=["has_table_def(self)"], opts={"entry_defined": True},
          loops={"comp#0": {"invariant": ["isfresh(_acc)", "len(_acc) == _i",
                                          "forall(lambda j: implies(0 <= j < _i, not same(lget(_acc, j), _acc)))",
                                          "forall(lambda j: implies(0 <= j < _i, typ(lget(_acc, j), 'list') and llen(lget(_acc, j)) == len(daughters(_seq[j]))))"],
                            "types": {"_acc": "list"}}},
          returns="list", properties=["C01"])
+
+
+HT = z3.Function("has_table", smt.I, smt.Val, smt.B)
+
+
+@spec_function()
+def has_table(eng, st, parser, x):
+    return sv_bool(HT(get_ref(eng.as_val(st, parser).t), eng.as_val(st, x).t))
+
+
+FT = z3.Function("first_table", smt.I, smt.Val, smt.I)
+
+
+@spec_function()
+def first_table(eng, st, parser, x):
+    """position in _parsed_decays of the FIRST table whose mother is x (meaningful where has_table(parser, x))"""
+    from pyvc.values import sv_int
+    return sv_int(FT(get_ref(eng.as_val(st, parser).t), eng.as_val(st, x).t))
+
+
+@spec_function()
+def has_table_def(eng, st, parser):
+    """definition of has_table over the heap of the state it is evaluated in (function entry)"""
+    h = st.heap
+    p = get_ref(eng.as_val(st, parser).t)
+    lst = get_ref(h.get_field(p, "_parsed_decays"))
+    x = z3.Const("ht_x", smt.Val)
+    l = z3.Int("ht_l")
+    mo = lambda idx: mother_of(eng, st, SV(h.lget(lst, idx), "obj:Tree")).t
+    ft = FT(p, x)
+    return sv_bool(z3.And(
+        # has_table(x) <-> some position holds a table of x;  first_table(x) is the least such position
+        z3.ForAll([x], z3.Implies(HT(p, x), z3.And(0 <= ft, ft < h.llen(lst), mo(ft) == x)), patterns=[HT(p, x)]),
+        z3.ForAll([x, l], z3.Implies(z3.And(HT(p, x), 0 <= l, l < ft), mo(l) != x), patterns=[z3.MultiPattern(HT(p, x), h.lget(lst, l))]),
+        z3.ForAll([l], z3.Implies(z3.And(0 <= l, l < h.llen(lst)), HT(p, mo(l))), patterns=[h.lget(lst, l)])))
